@@ -49,6 +49,11 @@ const (
 )
 
 type World struct {
+	// ExtReverseSections makes AddExtFile lay the block filter sections out in the reverse of
+	// the row-data order (each block still points at its own section): a reader that walks the
+	// blocks by row-data offset cannot cover two sections with one forward read, so the filter
+	// pass of even a small file is a series of reads.
+	ExtReverseSections bool
 	Case  string
 	Kind  StoreKind
 	Vocab *gen.Vocab
